@@ -474,7 +474,9 @@ func (gen *generator) irFuncDecl(new *ir.Func, old *ast.FuncDecl) error {
 			return errors.Errorf("invalid local ID in function %q, expected %s, got %s", new.Ident(), enc.LocalID(v.ID()), enc.LocalID(0))
 		}
 	}
-	return nil
+	// Index the parameters; a parameter name defined twice is an error, as for
+	// a function definition.
+	return fgen.indexLocals()
 }
 
 // --- [ Function definitions ] ------------------------------------------------
